@@ -404,7 +404,7 @@ def class_src(c, first="self"):
 # forest) and deep/bushy shapes.  The classes here are such method graphs; the expected
 # partition is computed from the graph itself (and by the Coq spec in c14.py).
 # ------------------------------------------------------------------------------------------
-UF_FAMILIES = ["tree", "deep-tree", "forest", "tree+extra", "chains-mid", "pairs-joined", "stars-linked", "caterpillar"]
+UF_FAMILIES = ["tree", "deep-tree", "forest", "tree+extra", "chains-mid", "pairs-joined", "stars-linked", "caterpillar", "binomial"]
 _UF_PLAIN_ATTR = ["PBody", "PAssignValue", "PReturnValue", "PAssignTarget", "PAugAssignTarget", "PCallArg", "PIfTest", "PBinLeft"]
 _UF_PLAIN_CALL = ["PBody", "PAssignValue", "PReturnValue", "PCallArg", "PIfTest", "PIfBody"]
 _UF_ATTR_POS = [p[0] for p in POSITIONS if p[1] == "m" and p[0] != "PCalledResult"]
@@ -412,7 +412,7 @@ _UF_CALL_POS = [p[0] for p in POSITIONS if p[1] == "m" and p[2] == "e"]
 
 
 def _uf_shape(rng, family):
-    """(number of vertices, list of plain edges (u, v)) of one family member; 6..14 vertices"""
+    """(number of vertices, list of edges (u, v) or (u, v, "attr" | "call")) of one family member; 6..14 vertices"""
     E = []
 
     def tree(vs, deep=False):
@@ -476,6 +476,22 @@ def _uf_shape(rng, family):
         for s, t in zip(stars, stars[1:]):
             if rng.random() < 0.8:
                 E.append((rng.choice(s), rng.choice(t)))
+    elif family == "binomial":
+        # pairs, pairs of pairs, pairs of quadruples: when the unions happen level by level the tree gets rank 3 and a member
+        # three links away from its root (only then does a find() that stops short of the root show)
+        n = 8
+        blocks = [[i] for i in range(n)]
+        while len(blocks) > 1:
+            nxt = []
+            for a, b in zip(blocks[::2], blocks[1::2]):
+                # the last level mostly as a self-call (calls are united after all attributes), the lower ones as attributes
+                how = ("call" if rng.random() < 0.75 else "attr") if len(blocks) == 2 else ("attr" if rng.random() < 0.9 else "call")
+                E.append((rng.choice(a), rng.choice(b), how))
+                nxt.append(a + b)
+            blocks = nxt
+        for _ in range(rng.choice([0, 0, 1, 2, 4])):
+            E.append((rng.randrange(n), n))
+            n += 1
     else:                                               # caterpillar: a spine with legs, legs of neighbouring joints sometimes linked
         s = rng.randint(3, 6)
         n = s
@@ -521,7 +537,7 @@ def unionfind_stress_terms(rng, n, name="K"):
     for i in range(n):
         family = UF_FAMILIES[i % len(UF_FAMILIES)] if i < 2 * len(UF_FAMILIES) else rng.choice(UF_FAMILIES)
         nv, E = _uf_shape(rng, family)
-        E = [(u, v) for u, v in E if u != v]
+        E = [e for e in E if e[0] != e[1]]
         names = ["m%02d" % k for k in range(nv)]
         rng.shuffle(names)                                 # union order follows the sorted names: decouple it from the shape
         # links: an attribute shared by the two ends, by three methods (two edges at one vertex merged), or a self-call
@@ -533,13 +549,13 @@ def unionfind_stress_terms(rng, n, name="K"):
             if a in used:
                 continue
             used.add(a)
-            u, v = E[a]
-            r = rng.random()
-            if r < p_call:
+            u, v = E[a][:2]
+            how = E[a][2] if len(E[a]) > 2 else ("call" if rng.random() < p_call else None)
+            if how == "call":
                 links.append(("call", u, v) if rng.random() < 0.5 else ("call", v, u))
                 continue
-            trio = [b for b in order if b not in used and (set(E[b]) & {u, v})]
-            if trio and rng.random() < 0.25:
+            trio = [b for b in order if b not in used and len(E[b]) == 2 and (set(E[b]) & {u, v})]
+            if trio and how is None and rng.random() < 0.25:
                 b = rng.choice(trio)
                 used.add(b)
                 links.append(("attr", sorted({u, v} | set(E[b]))))
